@@ -1072,10 +1072,12 @@ def c15_r13(ctx):
             return None
         outs = [o for o in Interp(ui, atom, is_effect=effu).run() if any("loop body once" in t for t in o.trace)]
         effs = [[norm(strip_pre(e)) for e in o.effects] for o in outs]
+        effs = [e for e in effs if e or src is None]      # a path on which the loop body does nothing (e.g. an inner guard) is judged by the other rows
         if src is None:
             good = bool(effs) and all(not e for e in effs)
         else:
-            good = bool(effs) and all(e == [f"<setitem>(self.extended_imports, {src}, set())", f"self.extended_imports[{src}].add({el})"] for e in effs)
+            good = bool(effs) and all(e in ([f"<setitem>(self.extended_imports, {src}, set())", f"self.extended_imports[{src}].add({el})"],
+                                            [f"self.extended_imports.setdefault({src}, set()).add({el})"]) for e in effs)
         ctx.check(good, key(ui, label), f"[{label}] import bookkeeping {effs}; expected {'nothing' if src is None else 'the class recorded under ' + src}", ui.loc(),
                   okmsg=f"{label} -> {'no import' if src is None else 'imported from ' + src}")
     yv = repo.func(SR_ + "_get_yield_value_from_async_for")
@@ -1146,8 +1148,14 @@ def c15_r14(ctx):
             t = str(norm(strip_pre(e)))
             if t.startswith("not ") and "isinstance(" in t and "ast.ClassDef" in t and " or " in t:
                 return not has_class
-            if t.startswith("not next(") or t == "not client_def":
+            if t.startswith("not next(") or t == "not client_def" or t.endswith(" is None") and ("client_def" in t or "next(" in t):
                 return not has_class
+            if t in ("client_def", "client_def is not None") or (t.endswith(" is not None") and "next(" in t) or (t.startswith("next(") and t.endswith(", None)")):
+                return has_class
+            if t in ("self.extended_imports", "len(self.extended_imports) > 0", "len(self.extended_imports) != 0", "len(self.extended_imports)"):
+                return any_imports
+            if t.startswith("isinstance(") and (t.endswith(", ast.FunctionDef)") or t.endswith(", ast.AsyncFunctionDef)")):
+                return True
             if t.startswith("isinstance(") and t.endswith(", ast.ClassDef)"):
                 return has_class
             if t.startswith("not isinstance(") and t.endswith(", ast.ClassDef)"):
@@ -1165,10 +1173,10 @@ def c15_r14(ctx):
             return None
         return atom
     outs = Interp(cm, mkc(has_class=False), is_effect=effc).run()
-    ctx.check(bool(outs) and all(o.kind == "return" and not o.effects and norm(strip_pre(o.value)) == "super().generate_client_module(module)" for o in outs), key(cm, "no client class"),
+    ctx.check(bool(outs) and all(o.kind == "return" and not o.effects and norm(strip_pre(o.value)) in ("super().generate_client_module(module)", "super().generate_client_module(module=module)") for o in outs), key(cm, "no client class"),
               f"without a client class the module is handed on untouched: {[o.text()[:100] for o in outs]}", cm.loc(), okmsg="client module without class -> handed on")
     outs = [o for o in Interp(cm, mkc(any_imports=False), is_effect=effc).run() if o.kind == "return"]
-    good = bool(outs) and all(norm(strip_pre(o.value)) == "super().generate_client_module(module)" for o in outs) and \
+    good = bool(outs) and all(norm(strip_pre(o.value)) in ("super().generate_client_module(module)", "super().generate_client_module(module=module)") for o in outs) and \
         any(any(norm(strip_pre(e)).startswith("self._modify_method_def(") for e in o.effects) for o in outs) and not any(any("insert" in norm(strip_pre(e).func) for e in o.effects) for o in outs)
     ctx.check(good, key(cm, "methods"), f"every method of the client class goes through _modify_method_def; without extra imports nothing else changes: {[o.text()[:140] for o in outs][:1]}", cm.loc(),
               okmsg="every client method considered; nothing to import -> module handed on")
@@ -1195,6 +1203,19 @@ def c15_r15(ctx):
     for o in outs:
         nm = o.value.id if isinstance(o.value, ast.Name) else None
         v = strip_pre(o.deref(o.value)) if nm else (strip_pre(o.value) if o.value is not None else None)
+        if v is not None and not nm:
+            # a value assembled from locals (`inherited + own`): read it with the locals spelled out, in canonical form
+            from ..canon import canon_text
+            try:
+                cur_ = v
+                for _ in range(5):
+                    nxt_ = strip_pre(subst(cur_, o.env, deep=True))
+                    if ast.dump(nxt_) == ast.dump(cur_):
+                        break
+                    cur_ = nxt_
+                v = ast.parse(str(norm(cur_)), mode="eval").body
+            except SyntaxError:
+                pass
         parts = [v] + [strip_pre(m) for m in (o.muts(nm) if nm else [])]
         structs = []
         for part in parts:
@@ -1247,5 +1268,5 @@ def c15_r15(ctx):
               okmsg="_update_node: other expression -> unchanged, []")
     cm = repo.func(SR_ + "ShorterResultsPlugin.generate_client_module")
     rets = [norm(r.value) for r in walk_no_nested(cm.node) if isinstance(r, ast.Return) and r.value is not None]
-    ctx.check(bool(rets) and all(r == "super().generate_client_module(module)" for r in rets) and len([r for r in walk_no_nested(cm.node) if isinstance(r, ast.Return)]) == len(rets), key(cm, "returns"),
+    ctx.check(bool(rets) and all(r in ("super().generate_client_module(module)", "super().generate_client_module(module=module)") for r in rets) and len([r for r in walk_no_nested(cm.node) if isinstance(r, ast.Return)]) == len(rets), key(cm, "returns"),
               f"every exit of generate_client_module hands the (rewritten) module on: {rets}", cm.loc(), okmsg="generate_client_module: every exit returns the module through the base hook")
